@@ -109,7 +109,7 @@ structure RawOK (data : List Raw) : Prop where
   bounded : ∀ p ∈ data, p.1 < maxInt64
   finite : ∀ p ∈ dropNaN data, Finite p.2
 
-private theorem batch_facts {r : Int} {nc : Nat} {data : List Raw} (ok : RawOK data)
+theorem batch_facts {r : Int} {nc : Nat} {data : List Raw} (ok : RawOK data)
     (hflat : (batchesOf r nc data).flatten = dropNaN data) (hne : ∀ b ∈ batchesOf r nc data, b ≠ []) :
     ∀ b ∈ batchesOf r nc data, Sorted b ∧ (∀ p ∈ b, 0 ≤ p.1) ∧ (∀ p ∈ b, p.1 < maxInt64) ∧ (∀ p ∈ b, Finite p.2) ∧
       ∃ t0 v0 lt lv, b.head? = some (t0, v0) ∧ b.getLast? = some (lt, lv) ∧ lastT b = lt := by
@@ -200,7 +200,7 @@ theorem C36_totals (r : Int) (hr : 0 < r) (data : List Raw) (nc : Nat) (hnc : 0 
   · rw [h2, sum_sums, runs_flatten]
 
 /-- what `floatBatch_shape` says about a chunk `c` made from batch `b` -/
-private theorem chunk_shape {r : Int} (hr : 0 < r) {nc : Nat} {data : List Raw} (ok : RawOK data)
+theorem chunk_shape {r : Int} (hr : 0 < r) {nc : Nat} {data : List Raw} (ok : RawOK data)
     (hflat : (batchesOf r nc data).flatten = dropNaN data) (hne : ∀ b ∈ batchesOf r nc data, b ≠ [])
     (b : List Pt) (hb : b ∈ batchesOf r nc data) (c : Chunk) (hfc : floatBatch b r = some c) :
     ∃ ts t0 v0, b.head? = some (t0, v0) ∧ c.count.map (·.1) = ts ∧ c.sum.map (·.1) = ts ∧ c.min.map (·.1) = ts ∧
